@@ -599,7 +599,9 @@ def _replay_and_write(prop, v, baseline, outs=None):
             native_results = r["results"]
             values = r.get("values")
             # obligations evaluated before a later precondition turned out false still count
-            reproduced = any(not ok for (_n, ok, _d) in r["results"])
+            # (a crash of the CONTRACT's own native code on the solver's model -- e.g. its reference qhull call on a degenerate
+            # cloud -- is not a reproduction of anything)
+            reproduced = any(not ok for (_n, ok, _d) in r["results"] if _n != "contract-code-raised")
         else:
             native_results = outs
     path = _write_replay(prop, v, reproduced, native_results, values)
